@@ -88,7 +88,26 @@ where
                 None => Err(OperationError::BacklinkMissing),
             }
         } else {
-            Ok(())
+            // A prune point doesn't need to link to its (possibly already removed) predecessor, but
+            // the log still needs to strictly grow: operations at or below the latest known entry
+            // are outdated and would otherwise bring back an already pruned prefix.
+            match past_header {
+                Some(past_header) => {
+                    if past_header.verifying_key != header.verifying_key {
+                        return Err(OperationError::TooManyAuthors);
+                    }
+
+                    if header.seq_num <= past_header.seq_num {
+                        return Err(OperationError::SeqNumNonIncremental(
+                            past_header.seq_num + 1,
+                            header.seq_num,
+                        ));
+                    }
+
+                    Ok(())
+                }
+                None => Ok(()),
+            }
         }
     } else {
         // Operation is at the beginning of log but we've already progressed and assume a strictly
